@@ -302,32 +302,42 @@ def txDelete (s : State) (tx t : Nat) (cond : Cond) : State × Res :=
 
 /-! ## rollback -/
 
+/-- `slab.delete` (undo of an insert): `Ok(false)` on a dead / unknown row, never an error -/
+def slabDelete (T : Table) (i : Nat) : List Row :=
+  match T.rows[i]? with
+  | some r => if r.alive then T.rows.set i { r with alive := false } else T.rows
+  | none => T.rows
+
+/-- `slab.restore_row`: `RowNotFound` (= `none`) unless the row is alive -/
+def restoreRow (T : Table) (i : Nat) (old : List Int) : Option (List Row) :=
+  match T.rows[i]? with
+  | some r => if r.alive ∧ old.length = T.ncols then some (T.rows.set i { r with vals := old }) else none
+  | none => none
+
+/-- `slab.restore_deleted_row`: `RowNotFound` (= `none`) unless the row exists and is dead -/
+def restoreDeletedRow (T : Table) (i : Nat) (old : List Int) : Option (List Row) :=
+  match T.rows[i]? with
+  | some r => if !r.alive ∧ old.length = T.ncols then some (T.rows.set i { alive := true, vals := old }) else none
+  | none => none
+
 /-- `apply_undo_entry` on one table; returns the table and the number of collected errors -/
 def applyUndoT (T : Table) (u : Undo) : Table × Nat :=
   match u with
   | .inserted _ i idx =>
-    -- `slab.delete` : Ok(false) on a dead row, no error
-    let rows := match T.rows[i]? with
-      | some r => if r.alive then T.rows.set i { r with alive := false } else T.rows
-      | none => T.rows
-    ({ T with rows := rows
+    ({ T with rows := slabDelete T i
               hashE := idx.foldl (fun es p => idxRemove (p.1, p.2, i) es) T.hashE
               btreeE := idx.foldl (fun es p => idxRemove (p.1, p.2, i) es) T.btreeE }, 0)
   | .updated _ i old chg =>
-    -- `slab.restore_row` : RowNotFound unless the row is alive
-    let (rows, errs) := match T.rows[i]? with
-      | some r => if r.alive ∧ old.length = T.ncols then (T.rows.set i { r with vals := old }, 0) else (T.rows, 1)
-      | none => (T.rows, 1)
+    let rr := restoreRow T i old
     let f := fun (es : List Entry) (p : Nat × Int × Int) => idxAdd (p.1, p.2.1, i) (idxRemove (p.1, p.2.2, i) es)
-    ({ T with rows := rows, hashE := chg.foldl f T.hashE, btreeE := chg.foldl f T.btreeE }, errs)
+    ({ T with rows := rr.getD T.rows, hashE := chg.foldl f T.hashE, btreeE := chg.foldl f T.btreeE },
+     if rr.isSome then 0 else 1)
   | .deleted _ i old idx =>
-    -- `slab.restore_deleted_row` : RowNotFound unless the row is dead
-    let (rows, errs) := match T.rows[i]? with
-      | some r => if !r.alive ∧ old.length = T.ncols then (T.rows.set i { alive := true, vals := old }, 0) else (T.rows, 1)
-      | none => (T.rows, 1)
-    ({ T with rows := rows
+    let rr := restoreDeletedRow T i old
+    ({ T with rows := rr.getD T.rows
               hashE := idx.foldl (fun es p => idxAdd (p.1, p.2, i) es) T.hashE
-              btreeE := idx.foldl (fun es p => idxAdd (p.1, p.2, i) es) T.btreeE }, errs)
+              btreeE := idx.foldl (fun es p => idxAdd (p.1, p.2, i) es) T.btreeE },
+     if rr.isSome then 0 else 1)
 
 def Undo.table : Undo → Nat
   | .inserted t _ _ => t
@@ -342,17 +352,15 @@ def Undo.row : Undo → Nat
 def applyUndo (acc : State × Nat) (u : Undo) : State × Nat :=
   match acc.1.tables u.table with
   | none => (acc.1, acc.2 + 1)
-  | some T =>
-    let (T', e) := applyUndoT T u
-    (setTable acc.1 u.table T', acc.2 + e)
+  | some T => (setTable acc.1 u.table (applyUndoT T u).1, acc.2 + (applyUndoT T u).2)
 
 def rollback (s : State) (tx : Nat) : State × Res :=
   match gate s tx with
   | some e => (s, .err e)
   | none =>
     let log := match s.txs tx with | some x => x.undo | none => []
-    let (s1, errs) := log.reverse.foldl applyUndo (s, 0)
-    (setTx (release s1 tx) tx none, if errs = 0 then .ok else .err .rollbackFailed)
+    let r := log.reverse.foldl applyUndo (s, 0)
+    (setTx (release r.1 tx) tx none, if r.2 = 0 then .ok else .err .rollbackFailed)
 
 /-! ## non-transactional statements (`begin; tx_op; commit | rollback`) -/
 
